@@ -38,3 +38,14 @@ PROPS["C08"] = {
                      C08(2, depth=10, deadline=900, max_states=40000000), C08(5, depth=9, deadline=900, max_states=40000000), C08(8, depth=9, deadline=900, max_states=40000000)],
     },
 }
+
+SC3 = ["CO_VERIF_SDO_BUF_SEG=3"]
+PROPS["C04"] = {
+    "level": "model_checking",
+    "technique": "explicit-state BFS over the full SDO command alphabet against the real server with an allowed-set reference server",
+    "text": "tbd", "note": "tbd",
+    "jobs": {
+        "quick": [J("c04", 0, defs=SC3, depth=40, deadline=100, opts={"coarse": 1})],
+        "thorough": [J("c04", 0, defs=SC3, depth=40, deadline=900)],
+    },
+}
